@@ -391,6 +391,21 @@ example : ∃ (s0 s1 : St Nat Nat) (sts : List (St Nat Nat)) (π : List (Nat × 
     rw [h σ hσ] at hw; cases hw
   · decide
 
+/-- a second window, with a **re-entrant visitor**: thread 1 walks root bucket 0, its visitor calls `Store(3, 7)` on the
+same map (a nested call: the traversal is suspended in `frames` and resumed when the call returns), then the traversal
+walks root bucket 1 and returns both pairs; `1 ↦ 5` stayed put throughout -/
+def exMidV : List (Tid × Choice Nat Nat) :=
+  List.replicate 4 (1, nop) ++ [(1, { op := some (.dc 3 (fun _ => (7, false)) false false) })] ++ List.replicate 19 (1, nop)
+
+def exResV : List (St Nat Nat) × St Nat Nat := (travRun exP 1 0 exS0 exMidV).getD ([], exS0)
+theorem exResV_eq : travRun exP 1 0 exS0 exMidV = some (exResV.1, exResV.2) := rfl
+
+example : Trav exP 1 (exS0.l 1).frames.length exS0 exResV.1 exResV.2 ∧ (exResV.2.l 1).pc = .ret ∧
+    (exResV.2.l 1).frames.length = (exS0.l 1).frames.length ∧ (exResV.2.l 1).result = some (.visits [(3, 7), (1, 5)]) ∧
+    (∀ σ ∈ exResV.1, Proofs.ProtoData.absGet σ.g 1 = some 5) ∧
+    (∃ σ ∈ exResV.1, ((σ.l 1).frames.length = 1)) :=
+  ⟨travRun_sound exP 1 0 exMidV exS0 exResV.2 exResV.1 exResV_eq, rfl, rfl, rfl, by decide, by decide⟩
+
 /-- the two pairs of that run were stored by its two commit steps -/
 example : commits exP (init exP) (exPre ++ exMid) = [(1, 5), (3, 7)] := by decide
 
